@@ -6,10 +6,11 @@ package netpoll
 // symbolic inside one size class each (so a shape is one or two paths, not dozens); the
 // operation(s) that follow are fully symbolic. Class boundaries follow the code's own
 // thresholds: LinkBufferCap (4096), BinaryInplaceThreshold (4096), pagesize (8192).
-const verifShapeCount = 16
+const verifShapeCount = 19
 
 func verifShape(id int) *verifLB {
 	var v *verifLB
+	verifLog("shape", id)
 	switch id {
 	case 0: // fresh buffer, any initial size
 		size := verifNondetInt("size")
@@ -96,6 +97,37 @@ func verifShape(id int) *verifLB {
 		v.opFlush()
 		v.rng(1026, 8192+4095)
 		v.opNext()
+	case 16: // between Append of a donor with flushed bytes and the next Flush
+		v = verifNewLB(verifSizeIn(1, 4096))
+		v.opMallocR(1, 2048)
+		v.opFlush()
+		v.opAppend(0)
+	case 17: // split node + a further node, Slice reader over the first part of the split origin
+		v = verifNewLB(verifSizeIn(1, 4096))
+		v.opMallocR(4, 64)
+		first := v.pendN
+		v.opWriteDirectR(1, 64, 1, 63)
+		verifAssume(v.lastRemain < first)
+		v.opFlush()
+		v.opWriteBinaryR(false, 4097, 8192)
+		v.opFlush()
+		v.rng(1, 63)
+		verifAssume(true)
+		v.opSliceMax(first - v.lastRemain)
+	case 18: // like 17, reader moved to the end of the split pair (or one byte beyond)
+		v = verifNewLB(verifSizeIn(1, 4096))
+		v.opMallocR(4, 64)
+		first := v.pendN
+		v.opWriteDirectR(1, 64, 1, 63)
+		verifAssume(v.lastRemain < first)
+		v.opFlush()
+		v.opWriteBinaryR(false, 4097, 8192)
+		v.opFlush()
+		v.rng(1, 63)
+		v.opSliceMax(first - v.lastRemain)
+		rest := first + v.lastWD - v.slices[0].n
+		v.rng(rest, rest+1)
+		v.opSkip()
 	}
 	return v
 }
@@ -110,15 +142,33 @@ func verifSizeIn(lo, hi int) int {
 // Bounded histories (DESIGN 5.1 mode B): a shape, then one arbitrary operation with
 // arbitrary arguments, then drain (flush, read everything back, compare with the reference).
 //
-//verif:bounds 16 shapes (<=6 fixed ops, sizes symbolic per size class) x 1 arbitrary op of 24 kinds + drain; sizes <= 8 MB; Until over <=4 readable bytes; loop unrolling 10 per header
+//verif:bounds 19 shapes (<=6 fixed ops, sizes symbolic per size class) x 1 arbitrary op of 24 kinds + drain; sizes <= 8 MB; Until over <=4 readable bytes; loop unrolling 10 per header
 //verif:also C02 C03
-//verif:param 0 383
+//verif:param 0 455
 //verif:loop 10
 func verifHarness_C01_hist1(param int) {
 	v := verifShape(param / verifOpCount)
 	verifReach("shape")
 	v.step(param % verifOpCount)
 	verifReach("op1")
+	v.drain()
+	verifReach("end")
+}
+
+// Two arbitrary operations after a shape (thorough tier).
+//
+//verif:bounds 19 shapes x 2 arbitrary ops (24 kinds each) + drain; sizes <= 8 MB; loop unrolling 10
+//verif:also C02 C03
+//verif:tier thorough
+//verif:param 0 455
+//verif:loop 10
+func verifHarness_C01_hist2(param int) {
+	v := verifShape(param / verifOpCount)
+	verifReach("shape")
+	v.step(param % verifOpCount)
+	op2 := verifPick("op2", 0, verifOpCount-1)
+	v.step(op2)
+	verifReach("op2")
 	v.drain()
 	verifReach("end")
 }
